@@ -35,4 +35,4 @@ def replay(path):
         return 1
     return 0
 
-MANIFEST = {'engine': 'mc', 'level': 'model_checking', 'technique': 'explicit-state BFS over the real IRCServer (scenario fan-out, all lines x all sessions, depth 2/3) with a recover() oracle on every transition', 'text': 'Every reachable state of a bounded exploration (31 scripted scenarios + BFS successors) x every alphabet line x every live session is executed on the real ProcessMessage glue; any panic is a violation with a replayable history. Exhaustive within the stated alphabet and depth; no sampling.', 'note': 'Bounds: <=3 clients + <=2 services links, alphabet of DESIGN.md 1.2, depth = scenario prefix + 2 (quick) / 3 (thorough). Trusted: glue mirror equals statemachine.go (checked by conformance test), Go runtime.'}
+MANIFEST = {'engine': 'mc', 'level': 'model_checking', 'technique': 'explicit-state BFS over the real IRCServer (scenario fan-out, all lines x all sessions, depth 2/3) with a recover() oracle on every transition', 'text': 'Every reachable state of a bounded exploration (31 scripted scenarios + BFS successors) x every alphabet line x every live session is executed on the real ProcessMessage glue; any panic is a violation with a replayable history. Exhaustive within the stated alphabet and depth; no sampling.', 'note': 'Bounds: <=3 clients + <=2 services links, alphabet of DESIGN.md 1.2, depth = scenario prefix + 2 (quick) / 3 (thorough). Trusted: glue mirror equals statemachine.go (checked by conformance test), Go runtime. Every transition is also applied to a twin that went through Marshal/Unmarshal, and every scenario state x reduced alphabet and non-line entries go through the real applyRobustMessage of statemachine.go.'}
